@@ -289,7 +289,7 @@ def cellNodes (s : CellStore) (c : Int) : List Int := (s.row c.toNat).take s.nod
 def liveRow (r : List Int) : Bool := r.getD 0 (-1) != -1
 
 structure CellInv (s : CellStore) : Prop where
-  per : 1 ≤ s.nodePer ∧ s.nodePer ≤ s.sizePer ∧ 2 ≤ s.sizePer
+  per : 1 ≤ s.nodePer ∧ s.nodePer ≤ s.sizePer ∧ 2 ≤ s.sizePer ∧ s.sizePer ≤ s.nodePer + 1
   rows : ∀ r ∈ s.c2n, r.length = s.sizePer
   chain : ∃ l, CellChain s.c2n s.blank l ∧ l.Nodup ∧ ∀ i, i < s.max → (i ∈ l ↔ s.c2nAt 0 i = -1)
   count : s.n = ((s.c2n.countP liveRow : Nat) : Int)
@@ -499,7 +499,7 @@ theorem grown_facts {s : CellStore} (h : CellInv s) (hb : s.blank = -1) {chunk :
     · exact hrows r hr
     · obtain ⟨k, hk, rfl⟩ := List.mem_iff_getElem.1 hr
       simp only [freeRows, List.getElem_map]
-      exact freeRow_length hper.2.2 _
+      exact freeRow_length hper.2.2.1 _
   · exact cellChain_freeRows s.c2n s.sizePer (s.max + chunk) chunk s.max rfl (Nat.le_refl _) hchunk
   · intro i hi
     simp only [grown, CellStore.max, List.length_append, freeRows_length] at hi
@@ -541,7 +541,7 @@ theorem grown_facts {s : CellStore} (h : CellInv s) (hb : s.blank = -1) {chunk :
 /-- `ref_cell_create` -/
 theorem create_CellInv (t : Refine.Gen.CellTables.CellType) (h : 2 ≤ t.nodePer) : CellInv (create t) := by
   have hsp : 2 ≤ t.nodePer + (if t.lastNodeIsId then 1 else 0) := by omega
-  refine ⟨⟨by simp only [create]; omega, by simp only [create]; omega, hsp⟩, ?_,
+  refine ⟨⟨by simp only [create]; omega, by simp only [create]; omega, hsp, by simp only [create]; split <;> omega⟩, ?_,
     ⟨List.range' 0 100, ?_, List.nodup_range', ?_⟩, ?_, ?_, ?_⟩
   · intro r hr
     simp only [create] at hr ⊢
@@ -895,6 +895,170 @@ theorem with_spec {s : CellStore} (h : CellInv s) {nodes : List Int} (hlen : nod
       exact List.getElem_mem hpos
     have hc : c ∈ s.adj.first (nodes.getD 0 (-1)) := (mem_first_iff h).2 ⟨hv, (hset _).2 h0⟩
     exact h2 c hc (uniq_eq_iff.2 hset)
+
+
+/-! ### replacing one node of one cell (`ref_adj_remove; c2n[k] = new; ref_adj_add`) -/
+
+theorem row_length {s : CellStore} (h : CellInv s) {c : Nat} (hc : c < s.max) : (s.row c).length = s.sizePer := by
+  simp only [row, getD_rows_eq_getElem hc]
+  exact h.rows _ (List.getElem_mem hc)
+
+theorem cellNodes_length {s : CellStore} (h : CellInv s) {c : Int} (hv : s.validCell c = true) :
+    (s.cellNodes c).length = s.nodePer := by
+  obtain ⟨_, hlt, _⟩ := validCell_iff.1 hv
+  simp only [cellNodes, List.length_take, row_length h hlt]
+  have := h.per.2.1
+  omega
+
+theorem cellNodes_getElem {s : CellStore} (h : CellInv s) {c : Int} (hv : s.validCell c = true) {k : Nat}
+    (hk : k < s.nodePer) : ∃ hk' : k < (s.cellNodes c).length, (s.cellNodes c)[k] = s.c2nAt k c.toNat := by
+  have hl := cellNodes_length h hv
+  refine ⟨by omega, ?_⟩
+  obtain ⟨_, hlt, _⟩ := validCell_iff.1 hv
+  have hrl := row_length h hlt
+  have hkr : k < (s.row c.toNat).length := by have := h.per.2.1; omega
+  simp only [cellNodes, List.getElem_take, c2nAt]
+  rw [List.getD_eq_getElem?_getD, List.getElem?_eq_getElem hkr]
+  rfl
+
+theorem setAt_CellInv {t u : CellStore} (h : CellInv t) {cell : Int} (hv : t.validCell cell = true)
+    {k : Nat} (hk : k < t.nodePer) {new : Int} (hnew : 0 ≤ new)
+    (hnp : u.nodePer = t.nodePer) (hsp : u.sizePer = t.sizePer)
+    (hc2n : u.c2n = t.c2n.set cell.toNat ((t.row cell.toNat).set k new))
+    (hbl : u.blank = t.blank) (hn : u.n = t.n)
+    (hadj : ∀ w x, (u.adj.first w).count x =
+      (t.adj.first w).count x - (if w = t.c2nAt k cell.toNat ∧ x = cell then 1 else 0)
+        + (if w = new ∧ x = cell then 1 else 0)) :
+    CellInv u ∧ u.validCell cell = true ∧ u.cellNodes cell = (t.cellNodes cell).set k new := by
+  have hfull := h
+  obtain ⟨hper, hrows, ⟨l, hc, hnd, hmem⟩, hcount, hnonneg, hadj0⟩ := h
+  obtain ⟨h0, hlt, hlive⟩ := validCell_iff.1 hv
+  have hi : cell.toNat < t.c2n.length := hlt
+  have hcl : cell.toNat ∉ l := fun hm => hlive ((hmem _ hlt).1 hm)
+  have hrl := row_length hfull hlt
+  have hkr : k < (t.row cell.toNat).length := by omega
+  -- the first entry of the new row is still not REF_EMPTY
+  have hlive' : ((t.row cell.toNat).set k new).getD 0 (-1) ≠ -1 := by
+    by_cases hk0 : k = 0
+    · subst hk0
+      rw [List.getD_eq_getElem?_getD, List.getElem?_set_self hkr]
+      simp only [Option.getD_some]; omega
+    · rw [List.getD_eq_getElem?_getD, List.getElem?_set_ne hk0, ← List.getD_eq_getElem?_getD]
+      exact hlive
+  have hvalid' : u.validCell cell = true := by
+    rw [validCell_iff]
+    refine ⟨h0, by simpa [CellStore.max, hc2n] using hi, ?_⟩
+    simp only [c2nAt, row, hc2n, getD_rows_set_self hi]
+    exact hlive'
+  have hnodes' : u.cellNodes cell = (t.cellNodes cell).set k new := by
+    rw [cellNodes_set_self hc2n hi rfl, hnp, List.take_set]
+    rfl
+  refine ⟨⟨by rw [hnp, hsp]; exact hper, ?_, ⟨l, ?_, hnd, ?_⟩, ?_, ?_, ?_⟩, hvalid', hnodes'⟩
+  · intro r hr
+    rw [hc2n] at hr
+    rw [hsp]
+    rcases List.mem_or_eq_of_mem_set hr with hr | hr
+    · exact hrows r hr
+    · rw [hr, List.length_set]; exact hrl
+  · rw [hc2n, hbl]; exact hc.set_of_not_mem hcl
+  · intro j hj
+    simp only [CellStore.max, hc2n, List.length_set] at hj
+    simp only [c2nAt, row, hc2n]
+    by_cases hji : j = cell.toNat
+    · subst hji
+      rw [getD_rows_set_self hi]
+      exact ⟨fun hm => absurd hm hcl, fun he => absurd he hlive'⟩
+    · rw [getD_rows_set_ne hji]
+      exact hmem j hj
+  · rw [hn, hc2n, List.countP_set hi, hcount]
+    have h1 : liveRow t.c2n[cell.toNat] = true := by
+      rw [liveRow_iff, ← getD_rows_eq_getElem hi]; exact hlive
+    have h2 : liveRow ((t.row cell.toNat).set k new) = true := liveRow_iff.2 hlive'
+    have h3 : 0 < t.c2n.countP liveRow := List.countP_pos_iff.2 ⟨_, List.getElem_mem hi, h1⟩
+    simp only [h1, h2, if_true]
+    omega
+  · intro c hvc v hvm
+    by_cases hci : c.toNat = cell.toNat
+    · have : c = cell := by
+        obtain ⟨hc0, _, _⟩ := validCell_iff.1 hvc
+        omega
+      subst this
+      rw [hnodes'] at hvm
+      rcases List.mem_or_eq_of_mem_set hvm with hvm | hvm
+      · exact hnonneg c hv v hvm
+      · omega
+    · rw [validCell_set_ne hc2n (Or.inl hci)] at hvc
+      rw [cellNodes_set_ne hc2n hnp hci] at hvm
+      exact hnonneg c hvc v hvm
+  · intro v c
+    rw [hadj v c, hadj0 v c]
+    by_cases hcb : c = cell
+    · subst hcb
+      obtain ⟨hk', hget⟩ := cellNodes_getElem hfull hv hk
+      rw [hnodes', List.count_set hk', hget]
+      simp only [hv, hvalid', if_true, and_true, beq_iff_eq]
+      have e1 : (t.c2nAt k c.toNat = v) ↔ (v = t.c2nAt k c.toNat) := eq_comm
+      have e2 : (new = v) ↔ (v = new) := eq_comm
+      simp only [e1, e2]
+    · have hci : c.toNat ≠ cell.toNat ∨ c < 0 := by omega
+      rw [validCell_set_ne hc2n hci]
+      simp only [hcb, and_false, if_false, Nat.sub_zero, Nat.add_zero]
+      split
+      · rename_i hvc
+        have hci' : c.toNat ≠ cell.toNat := by
+          obtain ⟨hc0, _, _⟩ := validCell_iff.1 hvc
+          omega
+        rw [cellNodes_set_ne hc2n hnp hci']
+      · rfl
+
+theorem count_ite_cons {x c : Int} {L : List Int} (p : Prop) [Decidable p] :
+    (if p then c :: L else L).count x = L.count x + (if p ∧ x = c then 1 else 0) := by
+  by_cases hp : p <;> by_cases hx : x = c
+  · subst hx; simp [hp]
+  · simp [hp, hx, List.count_cons_of_ne (Ne.symm hx)]
+  · simp [hp]
+  · simp [hp]
+
+theorem count_ite_erase {x c : Int} {L : List Int} (p : Prop) [Decidable p] :
+    (if p then L.erase c else L).count x = L.count x - (if p ∧ x = c then 1 else 0) := by
+  by_cases hp : p <;> by_cases hx : x = c
+  · subst hx; simp [hp]
+  · simp [hp, hx, List.count_erase_of_ne hx]
+  · simp [hp]
+  · simp [hp]
+
+/-- the state after one replace step -/
+def replaced (s : CellStore) (cell : Int) (k : Nat) (new : Int) : CellStore :=
+  { s with adj := ((s.adj.remove (s.c2nAt k cell.toNat) cell).2.add new cell).2,
+           c2n := s.c2n.set cell.toNat ((s.row cell.toNat).set k new) }
+
+theorem replaced_spec {s : CellStore} (h : CellInv s) {cell : Int} (hv : s.validCell cell = true)
+    {k : Nat} (hk : k < s.nodePer) {new : Int} (hnew : 0 ≤ new) :
+    (s.adj.remove (s.c2nAt k cell.toNat) cell).1 = .ok ∧
+    ((s.adj.remove (s.c2nAt k cell.toNat) cell).2.add new cell).1 = .ok ∧
+    CellInv (replaced s cell k new) ∧ (replaced s cell k new).validCell cell = true ∧
+    (replaced s cell k new).cellNodes cell = (s.cellNodes cell).set k new ∧
+    (∀ w, (replaced s cell k new).adj.first w =
+      if w = new then cell :: (if w = s.c2nAt k cell.toNat then (s.adj.first w).erase cell else s.adj.first w)
+      else (if w = s.c2nAt k cell.toNat then (s.adj.first w).erase cell else s.adj.first w)) := by
+  obtain ⟨hk', hget⟩ := cellNodes_getElem h hv hk
+  have hmem : cell ∈ s.adj.first (s.c2nAt k cell.toNat) :=
+    (mem_first_iff h).2 ⟨hv, by rw [← hget]; exact List.getElem_mem hk'⟩
+  obtain ⟨hok1, hf1⟩ := Adj.remove_spec s.adj hmem
+  obtain ⟨hok2, hf2⟩ := Adj.add_spec (s.adj.remove (s.c2nAt k cell.toNat) cell).2 hnew cell
+  have hfirst : ∀ w, (replaced s cell k new).adj.first w =
+      if w = new then cell :: (if w = s.c2nAt k cell.toNat then (s.adj.first w).erase cell else s.adj.first w)
+      else (if w = s.c2nAt k cell.toNat then (s.adj.first w).erase cell else s.adj.first w) := by
+    intro w
+    show ((s.adj.remove (s.c2nAt k cell.toNat) cell).2.add new cell).2.first w = _
+    rw [hf2 w, hf1 w]
+    by_cases hwo : w = s.c2nAt k cell.toNat
+    · subst hwo; simp
+    · simp [hwo]
+  obtain ⟨hinv, hval, hnodes⟩ := setAt_CellInv (u := replaced s cell k new) h hv hk hnew rfl rfl rfl rfl rfl (by
+    intro w x
+    rw [hfirst w, count_ite_cons, count_ite_erase])
+  exact ⟨hok1, hok2, hinv, hval, hnodes, hfirst⟩
 
 end CellStore
 
